@@ -11,6 +11,8 @@ import GoNeat.Proofs.WFParam
 import GoNeat.Proofs.WFStruct
 import GoNeat.Proofs.WFMate
 import GoNeat.Proofs.WFPop
+import GoNeat.Proofs.WFMate2
+import GoNeat.Proofs.WFStep
 import GoNeat.Props.C04
 import GoNeat.Props.C05
 import GoNeat.Props.C06
@@ -669,6 +671,251 @@ theorem spawn_wf (o : EpochOpts W) (g : Genome W) (rs rs' : List Nat) (p : Pop W
             · simp [allOrgs] at h'
             · obtain ⟨w, s⟩ := hmem x h'
               exact ⟨w, s.retains, s, s.regInv _ hig⟩
+
+/-! ## population-level closure, part 1: what a structural mutation does to the registry, the node set and the first gene
+
+`StepRel reg g reg' g'`: the registry only grows by records made of fresh numbers (`RegExt`), old nodes stay, a new
+node is hidden and its id is fresh or recorded, trait ids and modules are untouched, and the first gene keeps its
+number (new genes carry numbers above it: fresh ones by `CounterAbove`, recorded ones by `HeadBelowRecords`). -/
+
+omit [Scalar W] in
+theorem stepRel_addGene (reg reg' : Reg W) (g : Genome W) (x : Gene W) (hw : WFT g)
+    (hw' : WFT ({ g with genes := geneInsert g.genes x } : Genome W)) (he : RegExt reg reg')
+    (hlt : ∀ h0 ∈ g.genes.take 1, h0.inn < x.inn) :
+    StepRel reg g reg' ({ g with genes := geneInsert g.genes x } : Genome W) := by
+  refine ⟨he, fun _ h => h, fun _ h => Or.inl h, rfl, ?_, rfl⟩
+  apply head_preserved g _ hw hw'.wf.genesSorted
+  · intro y hy
+    exact ⟨y, (mem_insertAt _ _ _ _).mpr (Or.inr hy), rfl⟩
+  · intro z hz
+    rcases (mem_insertAt _ _ _ _).mp hz with rfl | h
+    · exact Or.inr hlt
+    · exact Or.inl ⟨z, h, rfl⟩
+
+theorem mutateAddLink_step (g g' : Genome W) (reg reg' : Reg W) (o : MutOpts W) (rs rs' : List Nat) (b : Bool)
+    (hw : WFT g) (hi : RegInv reg g) (hb : HeadBelowRecords reg g)
+    (h : mutateAddLink g reg o rs = .ok ((g', reg', b), rs')) : StepRel reg g reg' g' := by
+  have hwf := (mutateAddLink_wf g g' reg reg' o rs rs' b hw hi h).1
+  unfold mutateAddLink at h
+  split at h
+  · cases h
+  · split at h
+    · cases h
+    · split at h
+      · cases h
+      · simp only at h
+        split at h
+        · cases h
+        · simp only [Except.ok.injEq, Prod.mk.injEq] at h
+          obtain ⟨⟨rfl, rfl, _⟩, _⟩ := h
+          exact StepRel.refl _ _
+        · simp only [Except.ok.injEq, Prod.mk.injEq] at h
+          obtain ⟨⟨rfl, rfl, _⟩, _⟩ := h
+          exact StepRel.refl _ _
+        · split at h
+          · rename_i inn hfind
+            have hmem : inn ∈ reg.records := List.mem_of_find?_eq_some hfind
+            have hp := List.find?_some hfind
+            simp only [Bool.and_eq_true, beq_iff_eq] at hp
+            obtain ⟨⟨⟨ht, _⟩, _⟩, _⟩ := hp
+            split at h
+            · cases h
+            · split at h
+              · simp only [Except.ok.injEq, Prod.mk.injEq] at h
+                obtain ⟨⟨rfl, rfl, _⟩, _⟩ := h
+                exact StepRel.refl _ _
+              · split at h
+                · cases h
+                · simp only [Except.ok.injEq, Prod.mk.injEq] at h
+                  obtain ⟨⟨rfl, rfl, _⟩, _⟩ := h
+                  exact stepRel_addGene reg reg g _ hw hwf (RegExt.refl _) (fun h0 hh => (hb h0 hh inn hmem).1 ht)
+          · split at h
+            · cases h
+            · split at h
+              · cases h
+              · split at h
+                · cases h
+                · split at h
+                  · cases h
+                  · simp only [Except.ok.injEq, Prod.mk.injEq] at h
+                    obtain ⟨⟨rfl, rfl, _⟩, _⟩ := h
+                    exact stepRel_addGene reg _ g _ hw hwf (RegExt.fresh2 reg _ rfl rfl)
+                      (fun h0 hh => by
+                        have := hi.above.1 h0 (List.mem_of_mem_take hh)
+                        show h0.inn < reg.nextInn + 1
+                        omega)
+
+theorem connectOne_step (sensor output : Node) (g g' : Genome W) (reg reg' : Reg W) (added added' : Bool)
+    (rs rs' : List Nat) (hw : WFT g) (hi : RegInv reg g) (hb : HeadBelowRecords reg g) (hs : sensor ∈ g.nodes)
+    (ho : output ∈ g.nodes) (hos : output.isSensor = false)
+    (h : connectOne sensor output g reg added rs = .ok (some (g', reg', added'), rs')) : StepRel reg g reg' g' := by
+  have hwf := (connectOne_wf sensor output g g' reg reg' added added' rs rs' hw hi hs ho hos h).1
+  unfold connectOne at h
+  split at h
+  · simp only [Except.ok.injEq, Prod.mk.injEq, Option.some.injEq] at h
+    obtain ⟨⟨rfl, rfl, _⟩, _⟩ := h
+    exact StepRel.refl _ _
+  · split at h
+    · rename_i inn hfind
+      have hmem : inn ∈ reg.records := List.mem_of_find?_eq_some hfind
+      have hp := List.find?_some hfind
+      simp only [Bool.and_eq_true, beq_iff_eq, Bool.not_eq_eq_eq_not, Bool.not_true] at hp
+      obtain ⟨⟨⟨ht, _⟩, _⟩, _⟩ := hp
+      split at h
+      · cases h
+      · simp only at h
+        split at h
+        · simp at h
+        · simp only [Except.ok.injEq, Prod.mk.injEq, Option.some.injEq] at h
+          obtain ⟨⟨rfl, rfl, _⟩, _⟩ := h
+          exact stepRel_addGene reg reg g _ hw hwf (RegExt.refl _) (fun h0 hh => (hb h0 hh inn hmem).1 ht)
+    · split at h
+      · cases h
+      · split at h
+        · cases h
+        · split at h
+          rename_i innId reg1 hpair
+          simp only [Reg.nextInnovation, Prod.mk.injEq] at hpair
+          obtain ⟨rfl, rfl⟩ := hpair
+          split at h
+          · cases h
+          · simp only [Except.ok.injEq, Prod.mk.injEq, Option.some.injEq] at h
+            obtain ⟨⟨rfl, rfl, _⟩, _⟩ := h
+            exact stepRel_addGene reg _ g _ hw hwf (RegExt.fresh2 reg _ rfl rfl)
+              (fun h0 hh => by
+                have := hi.above.1 h0 (List.mem_of_mem_take hh)
+                show h0.inn < reg.nextInn + 1
+                omega)
+
+theorem connectLoop_step (sensor : Node) (outs : List Node) (g g' : Genome W) (reg reg' : Reg W) (added b : Bool)
+    (rs rs' : List Nat) (hw : WFT g) (hi : RegInv reg g) (hb : HeadBelowRecords reg g) (hs : sensor ∈ g.nodes)
+    (ho : ∀ o ∈ outs, o ∈ g.nodes ∧ o.isSensor = false)
+    (h : connectLoop sensor outs g reg added rs = .ok ((g', reg', b), rs')) : StepRel reg g reg' g' := by
+  induction outs generalizing g reg added rs with
+  | nil =>
+    unfold connectLoop at h
+    simp only [Except.ok.injEq, Prod.mk.injEq] at h
+    obtain ⟨⟨rfl, rfl, _⟩, _⟩ := h
+    exact StepRel.refl _ _
+  | cons o os ih =>
+    unfold connectLoop at h
+    split at h
+    · cases h
+    · simp only [Except.ok.injEq, Prod.mk.injEq] at h
+      obtain ⟨⟨rfl, rfl, _⟩, _⟩ := h
+      exact StepRel.refl _ _
+    · rename_i g1 reg1 added1 rs1 h1
+      obtain ⟨w1, i1, n1⟩ := connectOne_wf sensor o g g1 reg reg1 added added1 rs rs1 hw hi hs
+        (ho o (by simp)).1 (ho o (by simp)).2 h1
+      have s1 := connectOne_step sensor o g g1 reg reg1 added added1 rs rs1 hw hi hb hs
+        (ho o (by simp)).1 (ho o (by simp)).2 h1
+      have hb1 := (s1.fits w1 hw hi hb).1
+      exact s1.trans (ih g1 reg1 added1 rs1 w1 i1 hb1 (by rw [n1]; exact hs)
+        (fun x hx => by rw [n1]; exact ho x (List.mem_cons_of_mem _ hx)) h)
+
+theorem mutateConnectSensors_step (g g' : Genome W) (reg reg' : Reg W) (rs rs' : List Nat) (b : Bool)
+    (hw : WFT g) (hi : RegInv reg g) (hb : HeadBelowRecords reg g)
+    (h : mutateConnectSensors g reg rs = .ok ((g', reg', b), rs')) : StepRel reg g reg' g' := by
+  unfold mutateConnectSensors at h
+  split at h
+  · cases h
+  · simp only at h
+    split at h
+    · simp only [Except.ok.injEq, Prod.mk.injEq] at h
+      obtain ⟨⟨rfl, rfl, _⟩, _⟩ := h
+      exact StepRel.refl _ _
+    · split at h
+      · cases h
+      · split at h
+        · cases h
+        · rename_i sensor hk
+          have hsm := List.mem_of_getElem? hk
+          have hs : sensor ∈ g.nodes := (List.mem_filter.mp (List.mem_filter.mp hsm).1).1
+          exact connectLoop_step sensor _ g g' reg reg' false b _ rs' hw hi hb hs
+            (fun o ho => by
+              have := List.mem_filter.mp ho
+              exact ⟨this.1, by simpa using this.2⟩) h
+
+theorem mutateAddNode_step (g g' : Genome W) (reg reg' : Reg W) (o : MutOpts W) (rs rs' : List Nat) (b : Bool)
+    (hw : WFT g) (hi : RegInv reg g) (hb : HeadBelowRecords reg g)
+    (h : mutateAddNode g reg o rs = .ok ((g', reg', b), rs')) : StepRel reg g reg' g' := by
+  have hwf := (mutateAddNode_wf g g' reg reg' o rs rs' b hw hi h).1
+  unfold mutateAddNode at h
+  split at h
+  · simp only [Except.ok.injEq, Prod.mk.injEq] at h
+    obtain ⟨⟨rfl, rfl, _⟩, _⟩ := h
+    exact StepRel.refl _ _
+  · simp only at h
+    split at h
+    · cases h
+    · simp only [Except.ok.injEq, Prod.mk.injEq] at h
+      obtain ⟨⟨rfl, rfl, _⟩, _⟩ := h
+      exact StepRel.refl _ _
+    · rename_i k rs1 _
+      split at h
+      · cases h
+      · rename_i gene hk
+        obtain ⟨hskel, hrefs1, hkeys⟩ := setEnabledAt_step g k false hw.wf.traitRefs
+        -- every old number survives in the disabled-gene list, and nothing else is in it
+        have hold1 : ∀ y ∈ g.genes, ∃ z ∈ setEnabledAt g.genes k false, z.inn = y.inn := by
+          intro y hy
+          have : y.inn ∈ (setEnabledAt g.genes k false).map (·.inn) := by
+            have e := hskel.inns
+            rw [show ({ g with genes := setEnabledAt g.genes k false } : Genome W).genes = setEnabledAt g.genes k false from rfl] at e
+            rw [e]; exact List.mem_map_of_mem hy
+          obtain ⟨z, hz, e⟩ := List.mem_map.mp this
+          exact ⟨z, hz, e⟩
+        have hsplit : ∀ (x1 x2 : Gene W) (n : Node) (reg2 : Reg W), RegExt reg reg2 →
+            (∀ h0 ∈ g.genes.take 1, h0.inn < x1.inn ∧ h0.inn < x2.inn) →
+            (n.kind = Kind.hidden ∧ (reg.nextNode < n.id ∨ ∃ i ∈ reg.records, i.typ = 1 ∧ i.newNode = n.id)) →
+            GenesSorted (geneInsert (geneInsert (setEnabledAt g.genes k false) x1) x2) →
+            StepRel reg g reg2 ({ g with genes := geneInsert (geneInsert (setEnabledAt g.genes k false) x1) x2,
+                                         nodes := nodeInsert g.nodes n } : Genome W) := by
+          intro x1 x2 n reg2 he hlt hn hsorted
+          refine ⟨he, fun m hm => (mem_insertAt _ _ _ _).mpr (Or.inr hm), ?_, rfl, ?_, rfl⟩
+          · intro m hm
+            rcases (mem_insertAt _ _ _ _).mp hm with rfl | h'
+            · exact Or.inr hn
+            · exact Or.inl h'
+          · apply head_preserved g _ hw hsorted
+            · intro y hy
+              obtain ⟨z, hz, e⟩ := hold1 y hy
+              exact ⟨z, (mem_insertAt _ _ _ _).mpr (Or.inr ((mem_insertAt _ _ _ _).mpr (Or.inr hz))), e⟩
+            · intro z hz
+              rcases (mem_insertAt _ _ _ _).mp hz with rfl | h'
+              · exact Or.inr (fun h0 hh => (hlt h0 hh).2)
+              · rcases (mem_insertAt _ _ _ _).mp h' with rfl | h''
+                · exact Or.inr (fun h0 hh => (hlt h0 hh).1)
+                · obtain ⟨y, hy, e, _⟩ := hkeys z h''
+                  exact Or.inl ⟨y, hy, (geneKey_eq e).1⟩
+        split at h
+        · rename_i inn hfind
+          have hmem : inn ∈ reg.records := List.mem_of_find?_eq_some hfind
+          have hp := List.find?_some hfind
+          simp only [Bool.and_eq_true, beq_iff_eq] at hp
+          obtain ⟨⟨⟨ht, _⟩, _⟩, _⟩ := hp
+          split at h
+          · cases h
+          · split at h
+            · simp only [Except.ok.injEq, Prod.mk.injEq] at h
+              obtain ⟨⟨rfl, rfl, _⟩, _⟩ := h
+              exact StepRel.of_sameSkel reg hskel rfl rfl
+            · simp only [Except.ok.injEq, Prod.mk.injEq] at h
+              obtain ⟨⟨rfl, rfl, _⟩, _⟩ := h
+              exact hsplit _ _ _ reg (RegExt.refl _) (fun h0 hh => (hb h0 hh inn hmem).2 ht)
+                ⟨rfl, Or.inr ⟨inn, hmem, ht, rfl⟩⟩ hwf.wf.genesSorted
+        · split at h
+          · cases h
+          · split at h
+            · cases h
+            · simp only [Reg.nextNodeId, Reg.nextInnovation, Except.ok.injEq, Prod.mk.injEq] at h
+              obtain ⟨⟨rfl, rfl, _⟩, _⟩ := h
+              refine hsplit _ _ _ _ (RegExt.fresh1 reg _ rfl rfl rfl rfl) (fun h0 hh => ?_)
+                ⟨rfl, Or.inl (by show reg.nextNode < reg.nextNode + 1; omega)⟩ hwf.wf.genesSorted
+              have := hi.above.1 h0 (List.mem_of_mem_take hh)
+              constructor
+              · show h0.inn < reg.nextInn + 1; omega
+              · show h0.inn < reg.nextInn + 1 + 1; omega
 
 /-! ## known finding K1 (machine-checked witness) and non-vacuity of the hypotheses -/
 
